@@ -35,13 +35,13 @@ func MinimalTTF(numGlyphs int) []byte {
 	segs := [][3]uint16{{0x0020, 0x007E, uint16(0x10000 - 0x20 + 1)}, {0xFFFF, 0xFFFF, 1}}
 	segCount := uint16(len(segs))
 	w16 := func(v uint16) { binary.Write(&sub, be, v) }
-	w16(4)                        // format
-	w16(16 + 8*segCount)          // length
-	w16(0)                        // language
-	w16(segCount * 2)             // segCountX2
-	w16(4)                        // searchRange
-	w16(1)                        // entrySelector
-	w16(0)                        // rangeShift
+	w16(4)               // format
+	w16(16 + 8*segCount) // length
+	w16(0)               // language
+	w16(segCount * 2)    // segCountX2
+	w16(4)               // searchRange
+	w16(1)               // entrySelector
+	w16(0)               // rangeShift
 	for _, s := range segs {
 		w16(s[1]) // endCode
 	}
